@@ -251,6 +251,11 @@ def runFileMode (ignSrc ignRef : Bool) (res ref : Read) (cmp : Cmp) : Except Exc
   | .ok (status, tests) => .ok (exitOfBool (suiteBool status tests))
   | .error _ => .ok (exitOfBool false)                  -- `except Exception: passed = False`
 
+/-- a status that makes a comparison fail when no `--ignore-missing-*` flag is given -/
+def failingStatus : FStatus → Bool
+  | .failed | .error | .missingSource | .missingReference => true
+  | .passed | .filtered => false
+
 /-- name matching as far as C18 needs it: every source name without partner is `missingReference`,
     every reference name without partner `missingSource`; matched names get the given verdict -/
 def matchStatuses (src ref : List String) (verdict : String → FStatus) : List FStatus :=
